@@ -89,16 +89,17 @@ def main():
         if tier == 'quick' and len(scheds) > 400:
             scheds = rng.sample(scheds, 400)
         jobs = []
-        for s in scheds:
+        for si, s in enumerate(scheds):
             cols = [names[i] for i in s['cols']]
+            ratio = 1.0 if si % 3 else 0.5          # every third schedule also exercises the stratified subsampling path
             # shuffle permutation: tasks = perm of the candidate list in enumeration order
             jobs.append({'op': 'rank_graph', 'columns': cols, 'frame': {n: frame_all[n] for n in cols}, 'batches': 1, 'nodes': c['Workers'],
                          'completion': s['order'], 'perm_tasks': [[names[a], names[b]] for a, b in s['tasks']],
                          'args': {'heuristic': 'MI-numba-randomized', 'label_column': 'label', 'combination_number_upper_bound': 50,
-                                  'target_ranking_only': 'True' if s['mode'] == 'target' else 'False'}})
+                                  'mi_stratified_sampling_ratio': ratio, 'target_ranking_only': 'True' if s['mode'] == 'target' else 'False'}})
         ref_jobs = {}
         for j in jobs:
-            k = tuple(j['columns'])
+            k = (tuple(j['columns']), j['args']['mi_stratified_sampling_ratio'])
             if k not in ref_jobs:
                 ref_jobs[k] = dict(j, completion=None, nodes=1, perm_tasks=None)
         refs = PC.pipe_eval(list(ref_jobs.values()), modules=['pipe_ops'])
@@ -117,8 +118,9 @@ def main():
             if j['completion'] != sorted(j['completion']):
                 nontriv += 1
             t = sorted(map(tuple, r['ok'][0]['trip']))
-            if t != refmap[tuple(j['columns'])]:
-                V.violation(key, f'triplets differ from the reference run (1 worker, submission order): {t[:3]} vs {refmap[tuple(j["columns"])][:3]}', j)
+            rk = (tuple(j['columns']), j['args']['mi_stratified_sampling_ratio'])
+            if t != refmap[rk]:
+                V.violation(key, f'triplets differ from the reference run (1 worker, submission order): {t[:3]} vs {refmap[rk][:3]}', j)
         V.count(evaluations=len(jobs), nontrivial=nontriv, traces=len(jobs))
         V.add_sample({'schedule': {k: jobs[len(jobs) // 2][k] for k in ('columns', 'completion', 'perm_tasks', 'nodes')}})
 
@@ -132,6 +134,7 @@ def main():
             'pairwise+noise': dict(base_args, target_ranking_only='False', include_noise_baseline_features='True'),
             'multivalue-pairwise': dict(base_args, target_ranking_only='False', explode_multivalue_features='m'),
             'focus-pairwise': dict(base_args, target_ranking_only='False', feature_set_focus='f0,f2,zz,m'),
+            'subsampled-mi': dict(base_args, target_ranking_only='False', mi_stratified_sampling_ratio=0.5),
         }
         if tier != 'quick':
             groups['interactions-cap'] = dict(base_args, interaction_order=2, combination_number_upper_bound=7)
